@@ -90,10 +90,10 @@ theorem Goal.adv {T : Nat} {s s' : Sys} (he : AdvEffect T0 T s s') {x : Bool} {u
 
 theorem Ob.adv {T : Nat} {s s' : Sys} (h : SysOK nat blocked SLA SLB SR liteA liteB T0 H c s) (he : AdvEffect T0 T s s')
     {x : Bool} {tid la ra : Nat} {uc nomOn : Bool} {ts : Nat} (hob : Ob s x tid la ra uc nomOn ts)
-    (hy : T - ts ≤ 2000000000) : Ob s' x tid la ra uc nomOn ts := by
+    (hy : T - ts < maxBindingRequestTimeout) : Ob s' x tid la ra uc nomOn ts := by
   refine ⟨he.net.link hob.link, ?_, ?_, by rw [he.now]; exact hy⟩
   · obtain ⟨pd, h1, h2⟩ := hob.pend
-    exact ⟨pd, (he.lk x).pend tid pd h1 (young_lt (by rw [h2.2.2.2.2.2]; exact hy)) (by simp), h2⟩
+    exact ⟨pd, (he.lk x).pend tid pd h1 (by rw [h2.2.2.2.2.2]; exact hy) (by simp), h2⟩
   · obtain ⟨l, r, p, h1, h2, h3, h4⟩ := hob.slot
     obtain ⟨l', hl', el⟩ := (he.lk x).localByAddr h1
     obtain ⟨r', hr', er⟩ := (he.lk x).findRemote h2
@@ -115,7 +115,7 @@ theorem RespD.adv {T : Nat} {s s' : Sys} (he : AdvEffect T0 T s s') {x : Bool} {
 
 theorem Ch1.adv {T : Nat} {s s' : Sys} (h : SysOK nat blocked SLA SLB SR liteA liteB T0 H c s) (he : AdvEffect T0 T s s')
     {x : Bool} {tid la ra : Nat} {uc nomOn : Bool} {ts : Nat} (g : Ch1 c s x tid la ra uc nomOn ts)
-    (hy : T - ts ≤ 2000000000) : Ch1 c s' x tid la ra uc nomOn ts := by
+    (hy : T - ts < maxBindingRequestTimeout) : Ch1 c s' x tid la ra uc nomOn ts := by
   rcases g with (g | ⟨hob, d, hd, hr⟩) | ⟨hob, d, hd, hr⟩
   · exact Or.inl (Or.inl (g.adv he))
   · exact Or.inl (Or.inr ⟨hob.adv h he hy, d, he.mem hd, hr.adv he⟩)
@@ -123,7 +123,7 @@ theorem Ch1.adv {T : Nat} {s s' : Sys} (h : SysOK nat blocked SLA SLB SR liteA l
 
 /-- the controlled agent's progress survives one clock advance of at most 2 s -/
 theorem DP.adv {T : Nat} {s s' : Sys} (h : SysOK nat blocked SLA SLB SR liteA liteB T0 H c s) (he : AdvEffect T0 T s s')
-    (g : DP c s true) (hy : T - s.now ≤ 2000000000) : DP c s' false := by
+    (g : DP c s true) (hy : T - s.now < maxBindingRequestTimeout) : DP c s' false := by
   rcases g with g | ⟨tid, lb, rb, ts, g, hf⟩
   · exact Or.inl (g.adv he)
   · exact Or.inr ⟨tid, lb, rb, ts, g.adv h he (by rw [hf rfl]; exact hy), fun hx => by cases hx⟩
@@ -195,7 +195,7 @@ theorem tick_ob {s : Sys} (h : SysOK nat blocked SLA SLB SR liteA liteB T0 H c s
   obtain ⟨r', hr', er⟩ := (he.lk c).findRemote s2
   obtain ⟨q', hq', _⟩ := (he.lk c).findPair (endsOK_of_c06 (h.c06 c) hg.open_) el er.key s3
   refine ⟨⟨he.net.link hlink, ⟨_, by rw [he.agent c]; exact hpend, rfl, rfl, hrnet, rfl, rfl, rfl⟩,
-    ⟨l', r', q', hl', hr', hq', fun hx => by cases hx⟩, by rw [he.now]; simp⟩, ?_⟩
+    ⟨l', r', q', hl', hr', hq', fun hx => by cases hx⟩, by rw [he.now]; simp [maxBindingRequestTimeout]⟩, ?_⟩
   refine ⟨{ src := l.addr, dst := r.addr, p := .stun m }, ?_, ⟨rfl, rfl, m, rfl, hreq.congr (he.ids c), rfl⟩,
     fun hu => ⟨rfl, rfl, m, rfl, by subst hu; exact hreq.congr (he.ids c)⟩⟩
   rw [he.flight]
